@@ -358,7 +358,7 @@ func checkC08(p *Prog, r *Report) {
 	ruleIdentityFirst(p, r, "R-IDF", "C08", 16)
 	ruleMemo(p, r, "R-MEMO", "C08", map[string]bool{"panos": true, "nsx": true}, 7)
 	ruleExitsAudited(p, r, "R-X", "C08", map[string]bool{"cisco": true, "asa": true, "ios": true}, 17)
-	ruleMemo(p, r, "R-MEMO", "C08", map[string]bool{"cisco": true, "asa": true, "ios": true, "nxos": true}, 7)
+	ruleMemo(p, r, "R-MEMO", "C08", map[string]bool{"cisco": true, "asa": true, "ios": true, "nxos": true}, 6)
 	ruleRewriteDiscipline(p, r, "R-FLAG", "C08", map[string]bool{"cisco": true}, 20)
 	ruleCutsetMisuse(p, r, map[string]bool{"cisco": true, "asa": true, "ios": true, "panos": true, "nsx": true})
 	r.rule("R-M", "Mark discipline (PAN-OS, NSX): the marks needed / nameOnDevice decide which objects are transferred before the rules that reference them and under which name a rule refers to a group; every store into such a mark lies at a function+site whose controlling conditions are audited rows of tables/guards.tsv (compared by R08.g).")
@@ -594,7 +594,7 @@ func checkC14(p *Prog, r *Report) {
 	ruleRegexpConsts(p, r, "R-RX", "C14", 1)
 	// a new early return in an ACL or route planner skips the phases whose order this property is about
 	ruleExitsAudited(p, r, "R-X", "C14", map[string]bool{"cisco": true, "linux": true}, 16)
-	ruleMemo(p, r, "R-MEMO", "C14", map[string]bool{"cisco": true, "linux": true}, 7)
+	ruleMemo(p, r, "R-MEMO", "C14", map[string]bool{"cisco": true, "linux": true}, 6)
 	ruleBufferReuse(p, r, "R-REUSE", map[string]bool{"cisco": true, "linux": true})
 	r.rule("R14.o", "Safe order of incremental changes, decided by dominance/reachability between call sites: ASA and IOS ACLs — every insert/move (addACL, moveACL) happens before the list of deletions is reversed (slices.Reverse) and before any delete (delACL); deletions run bottom-up; IOS — the initial resequence dominates everything else that emits, the final resequence comes last; routes — inserts (with joined replace) before deletes, routes sorted more-specific-first before the comparison; Linux routes — SortFunc before the add loop before the delete loop.")
 	r.rule("R14.b", "IOS block marking is complete before any move decision: in diffIOSACLs no store into the block-id slice (result of markIOSPermitDenyBlocks) is reachable from a call of moveACL, which reads it. (A split detected after an earlier hunk's move was judged 'same block' silently drops the move: lock-out.)")
